@@ -4,7 +4,7 @@ TABLE (complete compare decision table incl. old/new wiring), GRAMMAR (per-famil
 checked against what the agent's own Term/TermFrom/RouteFilter readers require), policy envelope.
 The set-valued round trip over concrete values and run histories is not decided.
 """
-from vlib import facts as F, thir as T, xmlgrammar as X
+from vlib import facts as F, thir as T, xmlgrammar as X, xmlemit as XE
 from vlib.report import loc_of
 from . import agent_common as AC
 
@@ -56,73 +56,64 @@ def r1_compare(chk, fx):
         if kind == "update" and arm is not None:
             check_wiring(chk, n, arm, i)
     chk.floor("C01/R1 compare abstract cases", len(rows), 6)
-    # names = union of both key sets
-    tt = fx.thir[AC.find_compare(fx)]
-    lets = [s for s in T.walk(T.user_body(tt)) if s.get("k") == "LetStmt" and T.pat_str(s["pat"]) == "names"]
-    txt = X.ntext(lets[0]["init"]) if lets else ""
-    ok = "Iterator::chain(HashMap::keys(self.map),HashMap::keys(installed.map))" in txt or \
-         "Iterator::chain(HashMap::keys(installed.map),HashMap::keys(self.map))" in txt
-    chk.instance("C01/R1", "names = keys(evaluated) ∪ keys(installed)", tt["def"], loc_of(tt.get("sp")), holds=ok and "filter" not in txt,
-                 key="C01/R1 compare names-union")
-    # Differences::new(old, new) keeps the order
-    b = fx.body(AGENT + "::policies::compare::<impl " + AGENT + "::policies::Differences<'a, A>>::new")
-    aggs = b.aggs_of("policies::Differences")
-    def arg_of(op):
-        o = b.backward_origins(F.op_base(op), through_call=lambda c: False)
-        a = [x["l"] for x in o if x["k"] == "arg"]
-        return a[0] if len(a) == 1 else None
-    ok = len(aggs) == 1 and [arg_of(f) for f in aggs[0][2]["rv"]["fields"]] == [1, 2] and aggs[0][2]["rv"]["fnames"] == ["old", "new"]
-    chk.instance("C01/R1", "Differences::new(old, new) = Differences{old, new}", b.name, None, holds=ok, key="C01/R1 Differences::new order")
+    # names = union of both key sets: the iterator the decision closure is applied to derives from keys(self.map) and keys(installed.map)
+    from vlib import absint as A
+    cname = AC.find_compare(fx)
+    tt = fx.thir[cname]
+    paths = A.Interp(fx, crates=(AGENT,), no_inline=(n,)).explore(cname)
+    recvs = []
+    for p in paths:
+        for ev in p.trace:
+            if ev[0] == "call" and any(isinstance(a, tuple) and a[0] == "closure" and a[1] == n for a in ev[2]):
+                recvs.append((ev[1], ev[2][0]))
+    ok = bool(recvs)
+    detail = None
+    for fnm, r in recvs:
+        txt = A.vstr(r)
+        keys = sorted({A.vstr(x[2][0]) for x in A.walk_value(r) if x[0] == "term" and T.short(x[1], 2) == "HashMap::keys" and x[2]})
+        both = any("self" in k and k.endswith(".map") for k in keys) and any("installed" in k and k.endswith(".map") for k in keys)
+        dropping = [T.short(x[1], 2) for x in A.walk_value(r) if x[0] == "term" and T.short(x[1], 2) in DROPPING]
+        if not both or dropping or T.short(fnm, 2) not in ("Iterator::filter_map", "Iterator::map", "Iterator::flat_map"):
+            ok = False
+            detail = "%s over %s" % (T.short(fnm, 2), txt[:200])
+    chk.instance("C01/R1", "names = keys(evaluated) ∪ keys(installed): the decision is taken for every name of either map", tt["def"], loc_of(tt.get("sp")),
+                 holds=ok, key="C01/R1 compare names-union", detail=detail)
+
+
+DROPPING = ("Iterator::filter", "Iterator::take", "Iterator::skip", "Iterator::take_while", "Iterator::skip_while", "Iterator::step_by", "Iterator::nth",
+            "HashSet::intersection", "HashSet::difference", "HashSet::symmetric_difference", "Iterator::zip")
 
 
 def check_wiring(chk, n, arm, i_case):
-    """ipv4 <- (installed.ipv4, ranges.0); ipv6 <- (installed.ipv6, ranges.1); (old, new) order."""
-    p = arm["pat"]
-    while p.get("k") == "Deref":
-        p = p["sub"]
-    ep, ip_ = p["sub"][0]["pat"], p["sub"][1]["pat"]
-    binds = {}
-    _, einner = AC.opt_matches(ep, True)
-    rp = AC.field_pat(einner, "ranges")
-    _, rinner = AC.opt_matches(rp, True) if rp is not None else (False, None)
-    r = rinner
-    while r is not None and r.get("k") == "Deref":
-        r = r["sub"]
-    if r is not None and r.get("k") == "Leaf":
-        for s in r["sub"]:
-            bn = _bind_name(s["pat"])
-            if bn:
-                binds[bn] = ("new", "ipv4" if s["field"] == "0" else "ipv6")
-    if i_case == "present":
-        _, iinner = AC.opt_matches(ip_, True)
-        for fam in ("ipv4", "ipv6"):
-            fp = AC.field_pat(iinner, fam)
-            bn = _bind_name(fp) if fp is not None else None
-            if bn:
-                binds[bn] = ("old", fam)
-    upd = T.peel(T.peel(arm["body"])["fields"][0]["expr"])
-    for f in upd["fields"]:
-        if f["name"] not in ("ipv4", "ipv6"):
-            continue
-        call = T.peel(f["expr"])
-        ok = call.get("k") == "Call" and call.get("fn", "").endswith("::new") and len(call["args"]) == 2
-        detail = T.expr_str(f["expr"])
-        if ok:
-            a_old, a_new = T.peel(call["args"][0]), T.peel(call["args"][1])
-            new_ok = a_new.get("k") == "Var" and binds.get(a_new["name"]) == ("new", f["name"])
-            if i_case == "present":
-                inner = T.peel(a_old["fields"][0]["expr"]) if a_old.get("k") == "Adt" and a_old.get("variant") == "Some" else {}
-                old_ok = inner.get("k") == "Var" and binds.get(inner["name"]) == ("old", f["name"])
-            else:
-                old_ok = a_old.get("k") == "Adt" and a_old.get("variant") == "None"
-            ok = new_ok and old_ok
-        chk.instance("C01/R1", "Update.%s = Differences::new(old=%s installed %s, new=evaluated %s)" % (
-            f["name"], "Some" if i_case == "present" else "None", f["name"], f["name"]), n, loc_of(arm.get("sp")), holds=ok, detail=detail,
-            key="C01/R1 compare wiring %s installed=%s" % (f["name"], i_case))
-    # name and filter_expr
-    nm = [f for f in upd["fields"] if f["name"] == "name"]
-    ok = bool(nm) and X.ntext(nm[0]["expr"]) == "Clone::clone(name)"
-    chk.instance("C01/R1", "Update.name is the policy's own name", n, loc_of(arm.get("sp")), holds=ok, key="C01/R1 compare update-name installed=%s" % i_case)
+    """ipv4 <- (installed.ipv4, ranges.0); ipv6 <- (installed.ipv6, ranges.1); (old, new) order — read off the abstract result."""
+    from vlib import absint as A
+    vals = arm.get("values") or [arm.get("value")]
+    v = vals[0]
+    upd = A.payload0(v) if v is not None and A.is_opt(v) and v[2] == "Some" else None
+    fs = A.fields_of(upd) if upd else {}
+    for fam in ("ipv4", "ipv6"):
+        want_old = A.some(("sym", "old_" + fam)) if i_case == "present" else A.NONE
+        ok, d = True, None
+        # on every path of the case (a fork means the result depends on something besides the case: e.g. whether a set is empty)
+        for vv in vals:
+            u = A.payload0(vv) if vv is not None and A.is_opt(vv) and vv[2] == "Some" else None
+            dd = A.fields_of(u).get(fam) if u else None
+            df = A.fields_of(dd) if dd is not None else {}
+            good = dd is not None and dd[0] == "adt" and dd[1].endswith("policies::Differences") and df.get("old") == want_old and df.get("new") == ("sym", "new_" + fam)
+            if not good:
+                ok, d = False, dd
+            elif d is None:
+                d = dd
+        chk.instance("C01/R1", "Update.%s = Differences{old: %s installed %s, new: evaluated %s}" % (fam, "Some" if i_case == "present" else "None", fam, fam), n,
+                     loc_of(arm.get("sp")), holds=ok, detail=A.vstr(d) if d is not None else "no %s field" % fam,
+                     key="C01/R1 compare wiring %s installed=%s" % (fam, i_case))
+    nm = fs.get("name")
+    ok = nm is not None and A.vstr(nm) in ("«param:name»", "«var:name»") or (nm is not None and nm[0] == "sym" and nm[1].split(":")[-1] == "name")
+    chk.instance("C01/R1", "Update.name is the policy's own name (%s)" % (A.vstr(nm) if nm is not None else None), n, loc_of(arm.get("sp")), holds=bool(ok),
+                 key="C01/R1 compare update-name installed=%s" % i_case)
+    fe = fs.get("filter_expr")
+    chk.instance("C01/R1", "Update.filter_expr is the evaluated policy's expression", n, loc_of(arm.get("sp")), holds=fe == ("sym", "filter_expr"),
+                 key="C01/R1 compare update-filter_expr installed=%s" % i_case)
 
 
 def _bind_name(p):
@@ -151,7 +142,7 @@ def r2_family(chk, fx):
                          key="C01/R2 Differences::write_xml undecided %s" % key_case)
             continue
         n_cases += 1
-        samples[key_case] = X.render(nodes)
+        samples[key_case] = XE.render(nodes)
         old_nonempty = "Some(≠∅)" in label
         new_empty = "new=∅" in label
         terms = [x for x in nodes if x.get("tag") == "term"]
@@ -191,9 +182,9 @@ def r2_family(chk, fx):
             rfs = [c for c in (fr.get("children", []) if fr else []) if c.get("tag") == "route-filter"]
             stars = sorted((("delete" if AC.has_attr(c, "delete", "delete") else "add"), c.get("star")) for c in rfs)
             if "old=None" in label:
-                want = [("add", "Ranges::iter(self.new)")]
+                want = [("add", ("iter", "NEW"))]
             else:
-                want = [("add", "Ranges::diff(self.new,OLD)"), ("delete", "Ranges::diff(OLD,self.new)")]
+                want = [("add", ("difference", "NEW", "OLD")), ("delete", ("difference", "OLD", "NEW"))]
             chk.instance("C01/R2", "%s: route-filters written = %s" % (key_case, stars), fn, None, holds=stars == sorted(want),
                          key="C01/R2 route-filter-sets %s" % key_case, detail="expected %s" % sorted(want))
             for c in rfs:
@@ -204,22 +195,16 @@ def r2_family(chk, fx):
                 if ok:
                     at = str(c["children"][0].get("text"))
                     pt = str(c["children"][1].get("text"))
-                    vok = "PrefixRange::prefix(range)" in at and "PrefixRange::lower(" in pt and "PrefixRange::upper(" in pt \
-                        and pt.index("PrefixRange::lower(") < pt.index("PrefixRange::upper(") and "escaped" in at and "escaped" in pt
+                    vok = "PrefixRange::prefix(elem(" in at and "PrefixRange::lower(elem(" in pt and "PrefixRange::upper(elem(" in pt \
+                        and pt.index("PrefixRange::lower(") < pt.index("PrefixRange::upper(") and "'escaped'" in at and "'escaped'" in pt
                     chk.instance("C01/R2", "%s: route-filter writes range.prefix(), then range.lower()..range.upper()" % key_case, fn, None,
                                  holds=vok, key="C01/R2 route-filter-values %s" % key_case)
     chk.extra["family_cases_derived"] = n_cases
     chk.extra["family_emission_samples"] = {k: v for k, v in list(samples.items())[:6]}
-    # (d) Ranges::diff
-    t = fx.thir_body(AGENT + "::policies::Ranges::<A>::diff")
-    s = X.ntext(T.user_body(t))
-    chk.instance("C01/R2", "Ranges::diff(self, other) = HashSet::difference(self.inner, other.inner)", t["def"], loc_of(t.get("sp")),
-                 holds=s in ("HashSet::difference(self.inner,other.inner)", "{HashSet::difference(self.inner,other.inner)}"),
-                 key="C01/R2 Ranges::diff definition", detail=s)
-    t = fx.thir_body(AGENT + "::policies::Ranges::<A>::is_empty")
-    s = X.ntext(T.user_body(t))
-    chk.instance("C01/R2", "Ranges::is_empty = HashSet::is_empty(self.inner)", t["def"], loc_of(t.get("sp")),
-                 holds=s.strip("{}") == "HashSet::is_empty(self.inner)", key="C01/R2 Ranges::is_empty definition")
+    # (d) what Ranges::diff / iter / is_empty *are* is part of the derivation: they are inlined down to the HashSet operation, the stars above
+    # are ("difference", X, Y) = HashSet::difference(X.inner, Y.inner) in that receiver/argument order
+    chk.instance("C01/R2", "set operations are resolved down to HashSet::{iter,difference,is_empty} on the Ranges' own set (no other adaptor on the way)", fn,
+                 None, holds=all(not isinstance(v, str) for v in trees.values()), key="C01/R2 set-operations resolved")
 
 
 def r3_envelope(chk, fx):
@@ -230,7 +215,7 @@ def r3_envelope(chk, fx):
             chk.instance("C01/R3", "envelope for %s could not be derived" % var, fn, None, holds=False, detail=nodes,
                          key="C01/R3 envelope undecided %s" % var)
             continue
-        chk.extra.setdefault("envelope_samples", {})[var] = X.render(nodes)
+        chk.extra.setdefault("envelope_samples", {})[var] = XE.render(nodes)
         ok = len(nodes) == 1 and nodes[0]["tag"] == "configuration" and len(nodes[0]["children"]) == 1 \
             and nodes[0]["children"][0]["tag"] == "policy-options" and len(nodes[0]["children"][0]["children"]) == 1 \
             and nodes[0]["children"][0]["children"][0]["tag"] == "policy-statement"
@@ -239,7 +224,7 @@ def r3_envelope(chk, fx):
         if not ok:
             continue
         ps = nodes[0]["children"][0]["children"][0]
-        seq = [(c.get("tag") or ("write_xml " + (c["recv"][1] if isinstance(c.get("recv"), tuple) else "?"))) for c in ps["children"]]
+        seq = [(c.get("tag") or ("write_xml " + (str(c["recv"][1]) if isinstance(c.get("recv"), tuple) else "?"))) for c in ps["children"]]
         if var == "Delete":
             ok = seq == ["name"] and AC.has_attr(ps, "delete", "delete")
             chk.instance("C01/R3", "Delete: policy-statement[delete=delete] with <name> only (got %s)" % seq, fn, None, holds=ok,
@@ -252,7 +237,7 @@ def r3_envelope(chk, fx):
                          key="C01/R3 envelope Update")
         nm = AC.child(ps, "name")
         chk.instance("C01/R3", "%s: <name> carries the update's own policy name" % var, fn, None,
-                     holds=nm is not None and "AsRef::as_ref(name)" in str(nm.get("text")), key="C01/R3 envelope name %s" % var)
+                     holds=nm is not None and "«NAME»" in str(nm.get("text")) and "'escaped'" in str(nm.get("text")), key="C01/R3 envelope name %s" % var)
 
 
 # ---------------------------------------------------------------------------------------------
